@@ -31,8 +31,8 @@ theorem graphOKb_sound (all : List PAtom) (h : graphOKb all = true) : GraphOK al
 
 theorem wfb_sound (m : PMol) (h : wfb m = true) : WF m := by
   simp only [wfb, Bool.and_eq_true, decide_eq_true_eq, List.all_eq_true, Bool.not_eq_true', Bool.or_eq_true] at h
-  obtain ⟨⟨⟨⟨⟨⟨⟨h1, h2⟩, h3⟩, h4⟩, h5⟩, h6⟩, h7⟩, h8⟩ := h
-  refine ⟨?_, h2, fun a ha => atomOKb_sound a (h3 a ha), graphOKb_sound _ h4, h5, h6, h7, ?_⟩
+  obtain ⟨⟨⟨⟨⟨h1, h2⟩, h3⟩, h4⟩, h7⟩, h8⟩ := h
+  refine ⟨?_, h2, fun a ha => atomOKb_sound a (h3 a ha), graphOKb_sound _ h4, h7, ?_⟩
   · intro e; rw [e] at h1; simp at h1
   · intro p hp hs
     rcases h8 p hp with hn | ht
